@@ -15,6 +15,8 @@
                                 keys and values are in the safe class `safeObject` (decidable),
                                 single-character delimiters, the key-value delimiter not a space or tab (`delimOK`)
   (2) logfmt_roundtrip_partial  the same for encode_logfmt / parse_logfmt
+      encodeValue_flat          on a flat string object `flatten` is the identity, i.e. the stdlib
+                                entry point (the function under the `kv.encode` op) is `encodeKV`
   (3) kv_safe_iff_no_class      `safeObject` is exactly "the oracle's classifier finds no finding
                                 class": a round-trip failure outside the listed classes would
                                 contradict (1)
@@ -94,6 +96,18 @@ theorem logfmt_roundtrip_partial (o : List (List Char × List Char))
     parseLogfmt (encodeLogfmt o) = .ok (expected o) := by
   rw [encodeLogfmt_eq]
   exact kv_roundtrip_partial '=' ' ' .lenient true o (by decide) hsorted hsafe
+
+/-- On the `vrl::Value` of a flat string object (`vmapOf`, keys in `BTreeMap` order) the stdlib entry
+    point `encode_key_value` (model `encodeValue`: `flatten` + `to_string`; the function compared
+    with the implementation by the `kv.encode` op) is `encodeKV`, for every UTF-8 codec
+    `dec ∘ enc = some` (the codec is a parameter, its law a hypothesis). -/
+theorem encodeValue_flat (dec : List Nat → Option (List Char)) (enc : List Char → List Nat)
+    (hde : ∀ s, dec (enc s) = some s) (kd fd : List Char) (o : List (List Char × List Char))
+    (hsorted : keysSorted o = true) :
+    encodeValue dec kd fd false (vmapOf enc o) = some (encodeKV kd fd o) := by
+  unfold encodeValue
+  rw [flattenTop_flat dec enc hde o [] hsorted (by simp)]
+  simp [encodeKV]
 
 /-- (3) the hypotheses of (1) are exactly "the oracle's classifier reports no finding class". -/
 theorem kv_safe_iff_no_class (kd fd : Char) (o : List (List Char × List Char)) :
